@@ -120,8 +120,8 @@ ADDENDA = {
  "C05": ("durability watch: at the instant an append returns (sync mode EveryWrite) the active segment has no byte beyond its synced length", "Segment limits include 0, 1 and usize::MAX.", None),
  "C04": ("", "A sixth of the datasets lie around the epoch (rows with negative timestamps).", None),
  "C08": ("contention bursts on the lease file (retry exhaustion) in a sixth of the schedules", "", None),
- "C19": ("eligibility of the returned node also judged from the history itself (drained and not registered again / query-only / last reported load >= 95 %), independent of the registry's bookkeeping", "", None),
- "C20": ("", "Configurations include the degenerate ones: merge thresholds 0, 1 and usize::MAX, target sizes 0, 1 and usize::MAX, level limits 0 and 1.", None),
+ "C19": ("eligibility of the returned node also judged from the history itself (drained and not registered again / query-only / last reported load >= 95 %), independent of the registry's bookkeeping; every route call bounded by one hour of the runtime's virtual clock (a call parked for good is a verdict in logical time, not a wall-clock watchdog)", "", None),
+ "C20": ("", "Configurations include the degenerate ones: merge thresholds 0, 1 and usize::MAX, target sizes 0, 1 and usize::MAX, level limits 0 and 1. One case in three starts with a lease held by another compactor on an L0 group, given up after one or two cycles; every granted lease counts as a selected group (a chunk in two of them within one cycle is a violation).", None),
  "C06": ("extreme-timestamp lane in a worker process under RLIMIT_AS / RLIMIT_CPU",
          "Also: batches whose timestamps lie within hours of i64::MAX / i64::MIN through the real ingester (catalog entry and stored rows exact, no resource blow-up); a sixth of the rounds re-send batches verbatim (byte-identical flushes must both be stored); thresholds 0 / 1, batches of a few thousand rows; buffer-model lane (WriteBuffer against a list model).",
          "Fault-free by premise; rows of one round lie within a few hours (a chunk spanning decades makes the hour-bucket index large by design - noted in DESIGN.md, not part of C06); thread interleavings are whatever the OS produces (unsystematic); wall-clock watchdogs never feed the verdict."),
@@ -137,11 +137,11 @@ ADDENDA = {
          "Router: an update is taken unless an entry with a larger generation is cached, whatever that entry's state or age; a lookup never returns a generation below the newest one the router was told and has not invalidated.", None),
  "C14": ("contention bursts of 5 and of 2 lost compare-and-swap races starting at every conditional PUT of the fault-free split (retry exhaustion as an interruption class)",
          "Also: every third dataset holds a chunk of more than 8192 rows (several back-fill copies per side).", None),
- "C15": ("refused split-state lookups for a fifth of the writes (accepted => copied)", "", None),
- "C16": ("", "Also get_ranges, reads of a key before the writer reaches it (read again once it exists), twin objects (same file name in another directory, other content), tier sizes 0 and 1.", None),
+ "C15": ("refused split-state lookups for a fifth of the writes (accepted => copied)", "Read lane on both catalog backends, every other scenario with a second shard splitting at the same time.", None),
+ "C16": ("", "Also get_ranges, reads of a key before the writer reaches it (read again once it exists), twin objects (same file name in another directory, other content), tier sizes 0 and 1; every other configuration on a backing store whose downloads arrive in pieces and are now and then cut in the middle of the body.", None),
  "C17": ("", "Remote-write label order as senders produce it (name first / sorted incl. upper-case names / shuffled); OTLP typed attribute values, point attribute overriding a resource attribute, two scopes per resource; requests with no series or a few hundred, series with ~100 samples.", None),
  "C18": ("lane 4: the same subscriptions over a loopback WebSocket to /api/v1/stream, the observed window delimited by sentinel batches (no timing in the verdict); lane 5: topic-filtered delivery end to end with the batch metadata derived by the real ingester",
-         "Also over the WebSocket transport, and topic filters (tenant / shard / metric sets, And / Or) against the metadata the ingester derives for batches with several metric names.",
+         "Also over the WebSocket transport, and topic filters (tenant / shard / metric sets, And / Or) against the metadata the ingester derives for batches with several metric names. Every other end-to-end subscription runs against a catalog that refuses writes during some flushes (the rows of a failed flush go out with the next one and must arrive once).",
          "DataFusion 44 is the reference for predicate semantics; the subscriber keeps up (no lag), as the property assumes."),
 }
 
